@@ -107,7 +107,14 @@ type AnalyzedLetStatement struct {
 func (self AnalyzedLetStatement) Kind() AnalyzedStatementKind { return LetStatementKind }
 func (self AnalyzedLetStatement) Span() errors.Span           { return self.Range }
 func (self AnalyzedLetStatement) String() string {
-	return fmt.Sprintf("let %s: %s = %s;", self.Ident, self.VarType, self.Expression)
+	// Only a declared type is printed: an inferred type is inferred again,
+	// and not every inferred type (e.g. the one of `println`) can be written in source code.
+	optType := ""
+	if self.OptType != nil {
+		optType = fmt.Sprintf(": %s", self.OptType)
+	}
+
+	return fmt.Sprintf("let %s%s = %s;", self.Ident, optType, self.Expression)
 }
 func (self AnalyzedLetStatement) Type() Type { return NewNullType(self.Range) }
 
